@@ -31,7 +31,7 @@ ASSUMPTIONS = ["repeatability is only claimed (and checked) for single-process r
                "uniqueness of samples is checked on the Forward payoff (strictly monotone, continuous): bit-equal stored values mean shared variates",
                "each run is a subprocess with a 300 s time-out; a time-out is inconclusive"]
 REQUIRED_COUNTERS = ["fresh_interpreter_repeats", "in_process_repeats", "seed_audits", "seedings_observed", "tagged_rows_consumed",
-                     "multi_worker_runs", "duplicate_value_scans", "seedings_observed_across_processes", "uniform_variates_observed", "same_engine_repeats", "normal_variates_observed", "pre_drawn_brownian_rows_compared"]
+                     "multi_worker_runs", "duplicate_value_scans", "seedings_observed_across_processes", "uniform_variates_observed", "same_engine_repeats", "normal_variates_observed", "pre_drawn_brownian_rows_compared", "jump_counts_drawn_and_consumed"]
 MIN_NONTRIVIAL = {"quick": 12, "thorough": 60}
 SHARD_TIMEOUT = {"quick": 1500, "thorough": 7200}
 
@@ -86,6 +86,10 @@ def gen_cases(tier, seed):
             cases.append({"monitor": "seed-audit", "run": dict(base)})
             if not st:
                 cases.append({"monitor": "exactly-once", "run": dict(base)})
+    # a product observed monthly (twelve intervals: a row of jump counts and of Brownian increments per path), both engines
+    for e in ("standard", "mlmc-fixed"):
+        cases.append({"monitor": "exactly-once", "run": {"engine": e, "process": "chain" if e != "standard" else "hem", "paths": 30, "stochastic_dates": False, "monthly": True,
+                                                       "seed": 21 + seed, "rmse": 0.6, "workers": 1}})
     # more paths than any block size a pre-computation may use (single process, fixed dates: 70 000 rows drawn in one call)
     cases.append({"monitor": "exactly-once", "run": {"engine": "standard", "process": "hem", "paths": 70_000, "stochastic_dates": False, "seed": 11 + seed, "workers": 1}})
     # the seed 0 handed to a pool of workers
@@ -242,6 +246,16 @@ def run_case(case, R):
                     R.violation(f"pre-drawn-brownian-rows-with-identical-content-{run['engine']}", f"{tag}: one pre-computation of {e['n']} rows of Brownian increments "
                                 f"holds {e['duplicate_rows']} row(s) equal to an earlier row (e.g. rows {e.get('example')}): the paths that consume them share their variates", wit)
                     break
+        # jump counts: a process cannot consume more of them than it drew
+        for pid_ in {e["pid"] for e in events if e["kind"] in ("poisson", "poisson_draw")}:
+            drawn_p = sum(e["n"] for e in events if e["kind"] == "poisson_draw" and e["pid"] == pid_)
+            used_p = sum(e.get("len", 0) for e in events if e["kind"] == "poisson" and e["pid"] == pid_)
+            R.hit("jump_counts_drawn_and_consumed", used_p)
+            if used_p > drawn_p and nworkers == 1:
+                R.violation(f"more-jump-counts-consumed-than-drawn-{run['engine']}", f"{tag}: process {pid_} consumed {used_p} pre-drawn jump counts but drew only {drawn_p} "
+                            "Poisson variates: paths share their jump counts", wit)
+                break
+        events = [e for e in events if e["kind"] != "poisson_draw"]
         seedings = [e for e in events if e["kind"] == "seeding"]
         uniforms = [e for e in events if e["kind"] == "uniform"]
         normals = [e for e in events if e["kind"] == "normal"]
